@@ -77,6 +77,8 @@ func runJob(j Job) *Stats {
 		return typesPass(j.Cfg, j.Types, j.Mons)
 	case "pileup":
 		return pilePass(j.Mons)
+	case "twins":
+		return twinsPass(j.Mons, j.Depth)
 	case "lits":
 		return litsPass(j.Cfg, j.Types, j.Lits, j.Mons)
 	case "scale":
@@ -441,9 +443,59 @@ func buildJobs(prop, tier string) []interface{} {
 		cfg := Config{MaxInFlight: 3, TimeoutTicks: 2, Base: 5, Offsets: o, Kinds: []string{"mid", "fin"}, Ticks: []int{3}, MaxRecs: 2, PostClose: 1}
 		jobs = append(jobs, Job{Mode: "bfs", Cfg: cfg, MaxStates: maxStates})
 	}
-	// a Stream that re-enters the Reassembler from its callback (C01 only: grouping / exactly once)
+	// records of one event with different kernel timestamps in a window that straddles the 2^32 roll-over (the
+	// order is the sequence order, whatever the stamps say), and late arrivals stamped later than the last delivery
+	for _, m := range []int{2, 3} {
+		cfg := Config{MaxInFlight: m, TimeoutTicks: farTimeout, Base: 1<<32 - 2, Offsets: []uint32{0, 1, 2, 3}, Kinds: []string{"mid", "midTs", "fin", "finTs"}, MaxRecs: 2, PostClose: 1}
+		jobs = append(jobs, Job{Mode: "bfs", Cfg: cfg, MaxStates: maxStates})
+	}
+	jobs = append(jobs, Job{Mode: "bfs", Cfg: Config{MaxInFlight: 3, TimeoutTicks: 2, Base: 5, Offsets: []uint32{0, 1, 2}, Kinds: []string{"mid", "midTs", "fin", "finTs"}, Ticks: []int{3}, MaxRecs: 2, PostClose: 1}, MaxStates: maxStates})
+	// timeouts so large that "now + timeout" does not fit a 64-bit nanosecond count (250 years, the largest Duration)
+	for _, h := range []int{1, 2} {
+		cfg := Config{MaxInFlight: 2, TimeoutTicks: farTimeout, HugeTimeout: h, Base: 5, Offsets: []uint32{0, 1, 3}, Kinds: []string{"mid", "fin", "eoe"}, Ticks: []int{3}, MaxRecs: 2, PostClose: 1}
+		jobs = append(jobs, Job{Mode: "bfs", Cfg: cfg, MaxStates: maxStates})
+	}
+	// a slow Stream: time passes inside a callback, then it calls Maintain (C19: what became stale meanwhile is due)
+	if prop == "C19" || prop == "C01" {
+		for _, m := range []int{2, 3} {
+			cfg := Config{MaxInFlight: m, TimeoutTicks: 2, Base: 5, Offsets: []uint32{0, 1, 2}, Kinds: []string{"mid", "fin", "eoe"}, Ticks: []int{1, 3}, MaxRecs: 2, PostClose: 1, ReenterTickMaintain: 3}
+			jobs = append(jobs, Job{Mode: "bfs", Cfg: cfg, MaxStates: maxStates})
+		}
+	}
+	// the caller recycles the structs of delivered messages for later pushes
+	for _, m := range []int{1, 2} {
+		cfg := Config{MaxInFlight: m, TimeoutTicks: farTimeout, Base: 1000, Offsets: []uint32{0, 1, 5}, Kinds: []string{"mid", "fin", "eoe"}, MaxRecs: 2, PostClose: 1, Recycle: true}
+		jobs = append(jobs, Job{Mode: "bfs", Cfg: cfg, MaxStates: maxStates})
+	}
+	// two Reassemblers in one process, each with the selected monitor
+	twinDepth := 6
+	if thorough {
+		twinDepth = 7
+	}
+	jobs = append(jobs, Job{Mode: "twins", Depth: twinDepth})
+	// a Stream that re-enters the Reassembler from its callback: exactly-once / grouping (C01) and, after the
+	// outermost call has returned, the bound and "no complete event left at the head" (C10)
+	if prop == "C10" {
+		for _, m := range []int{2, 4} {
+			cfg := Config{MaxInFlight: m, TimeoutTicks: farTimeout, Base: 5, Offsets: []uint32{0, 1, 2, 4, 5}, Kinds: []string{"mid", "fin", "eoe"}, MaxRecs: 2, PostClose: 1, Reenter: true}
+			jobs = append(jobs, Job{Mode: "bfs", Cfg: cfg, MaxStates: maxStates})
+		}
+	}
 	if prop == "C01" {
 		jobs = append(jobs, Job{Mode: "pileup"})
+		// Close called from inside a callback while other events are undelivered
+		for _, m := range []int{1, 2, 3} {
+			cfg := Config{MaxInFlight: m, TimeoutTicks: farTimeout, Base: 5, Offsets: []uint32{0, 1, 2}, Kinds: []string{"mid", "fin", "eoe"}, MaxRecs: 2, PostClose: 1, ReenterClose: true}
+			jobs = append(jobs, Job{Mode: "bfs", Cfg: cfg, MaxStates: maxStates})
+		}
+		// sequence numbers between 2^24 and 2^25 apart in total but pairwise closer: the stated pairwise order is
+		// not transitive there, so only exactly-once delivery is decided (M01), for every arrival order
+		jobs = append(jobs, Job{Mode: "bfs", Cfg: Config{MaxInFlight: 4, TimeoutTicks: farTimeout, Base: 1000, Offsets: []uint32{0, 3000000, 6000000, 18000000}, Kinds: []string{"mid", "eoe"}, MaxRecs: 2, PostClose: 1}, MaxStates: maxStates})
+		jobs = append(jobs, Job{Mode: "bfs", Cfg: Config{MaxInFlight: 4, TimeoutTicks: farTimeout, Base: 1<<32 - 9000000, Offsets: []uint32{0, 3000000, 8000000, 17000000, 20000000}, Kinds: []string{"mid", "eoe"}, MaxRecs: 2, PostClose: 1}, MaxStates: maxStates})
+		for _, m := range []int{4} {
+			cfg := Config{MaxInFlight: m, TimeoutTicks: farTimeout, Base: 5, Offsets: []uint32{0, 1, 2, 4, 5}, Kinds: []string{"mid", "fin", "eoe"}, MaxRecs: 2, PostClose: 1, Reenter: true}
+			jobs = append(jobs, Job{Mode: "bfs", Cfg: cfg, MaxStates: maxStates})
+		}
 		for _, m := range []int{1, 2, 3} {
 			cfg := Config{MaxInFlight: m, TimeoutTicks: farTimeout, Base: 5, Offsets: []uint32{0, 1, 2, 4}, Kinds: []string{"mid", "fin", "eoe"}, MaxRecs: 2, PostClose: 1, Reenter: true}
 			jobs = append(jobs, Job{Mode: "bfs", Cfg: cfg, MaxStates: maxStates})
